@@ -50,6 +50,18 @@ func dropRequired(t *rapid.T, s *core.StructSpec, n *core.WNode, dropped *int) {
 	}
 	var keep []core.WField
 	here := 0
+	// structs with many required fields: half of the time exactly one of them is taken away (with
+	// independent edits some early one is always missing as well, and a check that stops early,
+	// or covers only so many fields, still reports an error)
+	nreq, single, seenReq := 0, -1, 0
+	for i := range n.Fields {
+		if f := s.ByID(n.Fields[i].ID); f != nil && f.Type.WT() == n.Fields[i].T && f.Req == core.Required {
+			nreq++
+		}
+	}
+	if nreq > 8 && rapid.Bool().Draw(t, "singledrop") {
+		single = rapid.IntRange(0, nreq-1).Draw(t, "singledropat")
+	}
 	for i := range n.Fields {
 		wf := n.Fields[i]
 		f := s.ByID(wf.ID)
@@ -58,6 +70,16 @@ func dropRequired(t *rapid.T, s *core.StructSpec, n *core.WNode, dropped *int) {
 			continue
 		}
 		val(f.Type, &wf.V)
+		if f.Req == core.Required && single >= 0 {
+			seenReq++
+			if seenReq-1 == single {
+				*dropped++
+				here++
+				continue
+			}
+			keep = append(keep, wf)
+			continue
+		}
 		if f.Req == core.Required {
 			switch rapid.IntRange(0, 7).Draw(t, "reqedit") {
 			case 0, 1:
@@ -322,6 +344,13 @@ func runC09(w *worker) func(c c09Case) *Failure {
 			labels = append(labels, "preceded-by-decodes")
 		}
 		nontriv := (big || boundary || nested) && c.Dropped > 0
+		if _, _, _, shape := typeShape(c.S); true {
+			for _, l := range shape {
+				if l == "required>64" || l == "fields>64" {
+					labels = append(labels, l)
+				}
+			}
+		}
 		w.count(nontriv, c.S.Sig()+string(c.Msg), c, labels...)
 		return nil
 	}
